@@ -141,6 +141,16 @@ def gen_cases(rng, n, thorough=False):
         p['Number of Production Wells'] = rng.choice([1, 2, 4])
         if rng.random() < 0.3:
             p['Ambient Temperature'] = rng.choice([5, 12, 20])
+        # injection temperatures above the plant's own re-injection temperature make the plant lower Tinj itself
+        p['Injection Temperature'] = rng.choice([30, 50, 50, 70, 85, 95])
+        # small reservoirs are mined out within the lifetime (remaining heat goes negative)
+        if rng.random() < 0.35:
+            p['Reservoir Volume Option'] = 4
+            p['Reservoir Volume'] = rng.choice([5e7, 1.5e8, 4e8])
+        if rng.random() < 0.3:
+            p['Ramey Production Wellbore Model'] = 1
+        if pl == 7 and rng.random() < 0.5:
+            p['Production Flow Rate per Well'] = rng.choice([20, 40])
         if thorough and rng.random() < 0.4:
             rm = rng.choice([1, 2, 3])
             p['Reservoir Model'] = rm
@@ -208,6 +218,9 @@ def evaluate(chk: core.Check, cases):
                 if not isinstance(pyv, list):
                     pyv = [pyv]
                 scale = max([abs(float(x)) for x in exact] + [1e-9])
+                if sub == 'st':
+                    # per-step powers are differences of heat flows of the size of the extracted heat: that is the rounding scale
+                    scale = max([scale] + [abs(x) for x in expect['st']['ext'][1] if isinstance(x, (int, float))])
                 ok = len(pyv) == len(exact) and all(isinstance(a, (int, float)) and core.close(a, b_, 1e-9, scale=scale) for a, b_ in zip(pyv, exact))
                 if not ok:
                     bad = next((i for i, (a, b_) in enumerate(zip(pyv, exact)) if not (isinstance(a, (int, float)) and core.close(a, b_, 1e-9, scale=scale))), None)
